@@ -9,7 +9,7 @@ import tempfile
 import warnings
 
 EXC_KINDS = ['forbidden', 'notfound', 'pme', 'valueerror', 'boom', 'csrf']       # CExc index
-RES_PATHS = [[], ['a'], ['a', 'b']]                                      # CRes index
+RES_PATHS = [[], ['a'], ['a', 'b'], ['t']]                               # CRes index; /t is a resource that IS an exception instance
 CTX_NAMES = [None, 'Root', 'A', 'B', 'I']
 EXC_CTX_NAMES = ['Boom', 'Exception', 'HTTPForbidden', 'HTTPNotFound', 'ValueError']
 PERM_TOKENS = ['view', 'edit', 'NPR', 'ZERO', 'EMPTY', 'NPRC']   # NPRC: a str EQUAL to the marker but not the constant object
@@ -68,13 +68,21 @@ def setup():
     class Boom(Exception):
         pass
 
-    for cls in (Root, A, B, Boom):
+    class Tomb(Node, Boom):
+        """a resource of the tree that is also raisable (a 'gone' marker): traversal to it reaches the NORMAL half of a view
+        registered with add_view(context=<exception class>)"""
+        def __init__(self, name, parent):
+            Boom.__init__(self, 'gone')
+            Node.__init__(self, name, parent)
+
+    for cls in (Root, A, B, Boom, Tomb):
         cls.__module__ = 'c05'
     root = Root('', None)
     a = A('a', root)
     b = B('b', a)
     alsoProvides(b, I)
-    resources = [root, a, b]
+    tomb = Tomb('t', root)
+    resources = [root, a, b, tomb]
     classes = {'Root': Root, 'A': A, 'B': B, 'I': I, 'Boom': Boom, 'Exception': Exception,
                'HTTPForbidden': HTTPForbidden, 'HTTPNotFound': HTTPNotFound, 'ValueError': ValueError}
     # NPRC: the marker VALUE as a view table parsed from JSON / ini / ZCML would carry it -- an equal, non-identical str
